@@ -70,6 +70,11 @@ def direct_cases(rng):
         k = rng.randrange(d)
         add("mprod", "matrix columns != mode size", True, lambda x=x, k=k: x.mprod(torch.ones(2, int(x.N[k]) + 1), k))
         add("mprod", "matrices/modes of different kinds", True, lambda x=x: x.mprod([torch.ones(2, int(x.N[0]))], 0))
+        if int(x.N[k]) > 1:       # the same mode named twice: the second matrix must fit the mode as the FIRST product left it (size 1 here), not the original size
+            add("mprod", "list naming a mode twice, second matrix fits only the original size", True,
+                lambda x=x, k=k: x.mprod([torch.ones(1, int(x.N[k]), dtype=x.cores[0].dtype), torch.ones(2, int(x.N[k]), dtype=x.cores[0].dtype)], [k, k]))
+            add("mprod", "list naming a mode twice (once from the end), second matrix fits only the original size", True,
+                lambda x=x, k=k: x.mprod([torch.ones(1, int(x.N[k]), dtype=x.cores[0].dtype), torch.ones(3, int(x.N[k]), dtype=x.cores[0].dtype)], [k, k - len(x.N)]))
         add("getitem", "too few indices", d > 1, (lambda x=x: x[(0,) * (len(x.N) - 1)]) if d > 1 else (lambda x=x: x[()]))
         add("getitem", "too many indices", False, lambda x=x: x[(0,) * (len(x.N) + 1)])
         add("getitem", "index out of range", False, lambda x=x: x[tuple(int(n) for n in x.N)])
